@@ -30,8 +30,15 @@ func (l *listener) OnTransformToHalfOpen(prev cb.State, rule cb.Rule) {
 	l.log = append(l.log, model.Transition{From: int(prev), To: model.HalfOpen, Rule: rule.Id})
 }
 
-func DrawRule(t *rapid.T, id, res string) (*cb.Rule, model.BreakerRule) {
+func DrawRule(t *rapid.T, id, res string) (*cb.Rule, model.BreakerRule) { return DrawRuleLike(t, id, res, nil) }
+
+// DrawRuleLike: with like != nil the rule has like's strategy and statistic geometry (interval, bucket count), so that the
+// loader considers the two statistics interchangeable; everything else is drawn.
+func DrawRuleLike(t *rapid.T, id, res string, like *cb.Rule) (*cb.Rule, model.BreakerRule) {
 	st := rapid.IntRange(0, 2).Draw(t, "strategy")
+	if like != nil {
+		st = int(like.Strategy)
+	}
 	var thr float64
 	if st == model.ErrorCount {
 		thr = float64(rapid.IntRange(0, 4).Draw(t, "count"))
@@ -46,6 +53,12 @@ func DrawRule(t *rapid.T, id, res string) (*cb.Rule, model.BreakerRule) {
 		MaxAllowedRtMs:               uint64(rapid.SampledFrom([]int{0, 5, 50}).Draw(t, "maxRt")),
 		Threshold:                    thr,
 		ProbeNum:                     uint64(rapid.IntRange(0, 3).Draw(t, "probeNum")),
+	}
+	if like != nil {
+		r.StatIntervalMs, r.StatSlidingWindowBucketCount = like.StatIntervalMs, like.StatSlidingWindowBucketCount
+		if r.RetryTimeoutMs == like.RetryTimeoutMs {
+			r.RetryTimeoutMs++ // never a twin: rules are matched to their old breakers modulo ID, a twin is indistinguishable from the original
+		}
 	}
 	m := model.BreakerRule{ID: id, Strategy: st, RetryTimeoutMs: uint64(r.RetryTimeoutMs), MinRequestAmount: r.MinRequestAmount,
 		StatIntervalMs: uint64(r.StatIntervalMs), BucketCount: uint64(r.StatSlidingWindowBucketCount), MaxAllowedRtMs: r.MaxAllowedRtMs,
@@ -81,13 +94,51 @@ func TestBreakerMachine(t *testing.T) {
 		var mlog []model.Transition
 		var rules []*cb.Rule
 		var ms []*model.Breaker
+		// staged: the first rule is loaded alone, then the list with both (in either order; no traffic in between). The second
+		// rule may have the first one's strategy and statistic geometry: each breaker still counts in a window of its own.
+		staged := nb == 2 && rapid.IntRange(0, 2).Draw(t, "stagedLoad") == 0
 		for i := 0; i < nb; i++ {
-			r, mr := DrawRule(t, fmt.Sprintf("r%d", i), "res")
+			var like *cb.Rule
+			if staged && i == 1 && rapid.IntRange(0, 3).Draw(t, "sameStatistic") > 0 {
+				like = rules[0]
+			}
+			r, mr := DrawRuleLike(t, fmt.Sprintf("r%d", i), "res", like)
+			if staged && i == 1 {
+				twin := *rules[0]
+				twin.Id = r.Id
+				if twin == *r { // drawn independently and equal in every field: not a twin either
+					r.RetryTimeoutMs++
+					mr.RetryTimeoutMs++
+				}
+			}
 			rules = append(rules, r)
 			ms = append(ms, model.NewBreaker(mr, &mlog))
 			c.Op("rule %s strategy=%d thr=%v min=%d retry=%d interval=%d buckets=%d maxRt=%d probeNum=%d", r.Id, r.Strategy, r.Threshold, r.MinRequestAmount, r.RetryTimeoutMs, r.StatIntervalMs, r.StatSlidingWindowBucketCount, r.MaxAllowedRtMs, r.ProbeNum)
 		}
-		if _, err := cb.LoadRules(rules); err != nil {
+		if staged {
+			first := *rules[0]
+			var err error
+			if rapid.Bool().Draw(t, "firstPerResource") {
+				_, err = cb.LoadRulesOfResource("res", []*cb.Rule{&first})
+			} else {
+				_, err = cb.LoadRules([]*cb.Rule{&first})
+			}
+			if err != nil || len(cb.GetRulesOfResource("res")) != 1 {
+				t.Fatalf("staged load of the first rule: %v", err)
+			}
+			c.Class("staged-load(second rule added by a reload)")
+			if rapid.Bool().Draw(t, "addedRuleFirst") { // the list order is also the order the model consults the breakers in
+				rules[0], rules[1] = rules[1], rules[0]
+				ms[0], ms[1] = ms[1], ms[0]
+			}
+			if rapid.Bool().Draw(t, "secondPerResource") {
+				if _, err := cb.LoadRulesOfResource("res", rules); err != nil {
+					t.Fatalf("LoadRulesOfResource: %v", err)
+				}
+			} else if _, err := cb.LoadRules(rules); err != nil {
+				t.Fatalf("LoadRules: %v", err)
+			}
+		} else if _, err := cb.LoadRules(rules); err != nil {
 			t.Fatalf("LoadRules: %v", err)
 		}
 		if got := len(cb.GetRulesOfResource("res")); got != nb {
